@@ -24,11 +24,11 @@ Proof.
 Qed.
 
 Lemma captures_count : forall pat t caps,
-  kw_captures KWild pat t = Some caps -> length caps = count_stars (unescape_quotes pat).
+  kw_captures KWild pat t = Some caps -> length caps = count_stars pat.
 Proof.
   intros pat t caps H. unfold kw_captures in H.
-  pose proof (split_on_star_length (unescape_quotes pat) []) as HL.
-  destruct (split_on_star (unescape_quotes pat) []) as [|s0 rest]; [discriminate|].
+  pose proof (split_on_star_length pat []) as HL.
+  destruct (split_on_star pat []) as [|s0 rest]; [discriminate|].
   apply find_match_strong in H. destruct H as (pre & m & t' & _ & _ & Hm & _).
   apply match_segs_count in Hm. cbn [length] in HL. lia.
 Qed.
